@@ -85,7 +85,10 @@ func runC06(cfg *vh.Config) error {
 	nValid := cfg.Scale(90, 2500)
 	for i := 0; i < nValid; i++ {
 		t := full
-		if r.Chance(25) {
+		switch {
+		case r.Chance(45):
+			t = byName["env_wide"]
+		case r.Chance(30):
 			t = vh.Pick(r, targets)
 		}
 		g := codecgen.NewGen(r, t.Env)
